@@ -49,7 +49,7 @@ type HistCase struct {
 	Steps    []Step      `json:"steps"`
 	Faults   []FaultSpec `json:"faults,omitempty"`
 	Mode     string      `json:"mode"`                // admissible | wild
-	FaultErr string      `json:"fault_err,omitempty"` // error kind of the injected faults: "" EIO (modelled), "perm", "nospc" (oracle only)
+	FaultErr string      `json:"fault_err,omitempty"` // error kind of the injected faults: "" EIO (modelled), "perm", "nospc", "writeback" (oracle only)
 }
 
 type FaultSpec struct {
@@ -60,7 +60,7 @@ type FaultSpec struct {
 }
 
 // faultError: what an injected fault returns.  "" = EIO (what the model's fault plans stand for);
-// "perm" = EPERM, "nospc" = ENOSPC: permission- and space-type failures are outside the model (the
+// "perm" = EPERM, "nospc" = ENOSPC, "writeback" = EIO from Close with the written data lost: permission-, space- and write-back failures are outside the model (the
 // code deliberately ignores permission errors of chown/chtimes), such runs are judged by the
 // oracles only and are not compared with the model.
 func faultError(kind string) error {
@@ -69,6 +69,10 @@ func faultError(kind string) error {
 		return &os.PathError{Op: "injected", Path: "fault", Err: syscall.EPERM}
 	case "nospc":
 		return &os.PathError{Op: "injected", Path: "fault", Err: syscall.ENOSPC}
+	case "writeback":
+		// Close of a written handle fails AND what was written through it is lost (the deferred
+		// write-back failure of NFS or quota mounts): the spy truncates the file before it closes it
+		return errWriteback
 	}
 	return errInjected
 }
